@@ -19,6 +19,7 @@
 #ifndef _GNU_SOURCE
 #define _GNU_SOURCE
 #endif
+#include <sys/mman.h>
 #include <stddef.h>
 #include <stdlib.h>
 #include <string.h>
@@ -191,7 +192,20 @@ static void* ovr_do_alloc(const char* ep, long n_, size_t al, int* rc, int* outk
     ovr_split(n, &cnt, &sz); return reallocarray(NULL, cnt, sz);
   }
   if (ovr_streq(ep, "strdup")) return strdup(ovr_strsrc);
-  if (ovr_streq(ep, "strndup")) return strndup(ovr_strsrc, n - 1 + 5);
+  if (ovr_streq(ep, "strndup")) {
+    /* every second time: exactly the first n-1 characters of an UNTERMINATED source that ends right in front of an inaccessible page
+       (a legal call; reading source[n-1] faults) */
+    static uint8_t* region = NULL; static int flip = 0; const size_t rsz = (size_t)1 << 22;
+    if (region == NULL) {
+      region = (uint8_t*)mmap(NULL, rsz + 4096, PROT_READ | PROT_WRITE, MAP_PRIVATE | MAP_ANONYMOUS, -1, 0);
+      if (region == (uint8_t*)MAP_FAILED) region = NULL; else mprotect(region + rsz, 4096, PROT_NONE);
+    }
+    if (region != NULL && n >= 2 && n - 1 <= rsz && (flip++ % 2) == 0) {
+      char* d = (char*)(region + rsz - (n - 1)); memcpy(d, ovr_strsrc, n - 1);
+      return strndup(d, n - 1);
+    }
+    return strndup(ovr_strsrc, n - 1 + 5);
+  }
   if (ovr_streq(ep, "realpath")) return realpath(ovr_pathsrc, NULL);
 #ifdef __cplusplus
   return ovr_cpp_alloc(ep, n, al);
